@@ -11,8 +11,10 @@ WORLDS = {
     "W2":  dict(keys="W2Keys", files="W2Files", scripts="W2Scripts", srcs="W2Srcs", ops="W2Ops", hasr=False),
     "W2b": dict(keys="W2bKeys", files="W2bFiles", scripts="W2bScripts", srcs="W2bSrcs", ops="W2bOps", hasr=False),
     "W3":  dict(keys="W3Keys", files="W3Files", scripts="W3Scripts", srcs="W3Srcs", ops="W3Ops", hasr=True),
+    "W3s": dict(keys="W3sKeys", files="W3sFiles", scripts="W3sScripts", srcs="W3sSrcs", ops="W3sOps", hasr=True),
     "W3f": dict(keys="W3fKeys", files="W3Files", scripts="W3Scripts", srcs="W3Srcs", ops="W3fOps", hasr=True),
     "W4":  dict(keys="W4Keys", files="W4Files", scripts="W4Scripts", srcs="W4Srcs", ops="W4Ops", hasr=True),
+    "W4e": dict(keys="W4Keys", files="W4Files", scripts="W4eScripts", srcs="W4Srcs", ops="W4eOps", hasr=True),
     "W4r": dict(keys="W4Keys", files="W4Files", scripts="W4Scripts", srcs="W4Srcs", ops="W4rOps", hasr=True),
     "W9n": dict(keys="W9nKeys", files="W9nFiles", scripts="W9nScripts", srcs="W9nSrcs", ops="W9nOps", hasr=True),
     "W4x": dict(keys="W4Keys", files="W4Files", scripts="W4Scripts", srcs="W4Srcs", ops="W4xOps", hasr=True),
